@@ -1,1 +1,443 @@
-PROPS = {}
+"""Process-level / UCI properties: C05 C15 C16 and the style tool C20."""
+import json
+import os
+import random
+import re
+import subprocess
+import sys
+
+import vlib
+from vlib import Pos, canon_transcript, fmt_mv, log, parse_moves, run_driver, run_driver_par, run_engine, run_hx, run_hx_par
+from props_core import compare, gen_positions, sizes, uci_oracle
+from props_search import games, in_domain
+
+CASTLE_STRINGS = ["e1g1", "e1c1", "e8g8", "e8c8"]
+
+
+# ------------------------------------------------------------------ token oracle (specification side)
+def spec_tokens(P, legal, tok):
+    """the legal moves (engine triples) a token may denote under the property's rule (more than one only when UCI_Chess960 is off
+    on a position with non-standard castling geometry, where the standard notation is ambiguous)"""
+    out = [m for m in legal if uci_oracle(P, m) == tok]
+    if out:
+        return out
+    m = spec_token_castle(P, legal, tok)
+    return [m] if m is not None else []
+
+
+def spec_token_castle(P, legal, tok):
+    if tok in CASTLE_STRINGS:
+        white_string = tok[1] == "1"
+        if white_string == (not P.black):
+            ksq = (P.piece(5) & P.c0).bit_length() - 1
+            if ksq == 4:
+                for m in legal:
+                    if m[0] == 4 and (P.c0 >> m[1]) & 1 and m[2] == 6:
+                        kingside = (m[1] % 8) > 4
+                        if kingside == (tok[2] == "g"):
+                            return m
+    return None
+
+
+def random_tokens(P, legal, rnd, n):
+    toks = []
+    for _ in range(n):
+        k = rnd.random()
+        if legal and k < 0.45:
+            m = rnd.choice(legal)
+            toks.append(uci_oracle(P, m))
+        elif legal and k < 0.6:
+            m = rnd.choice(legal)
+            Q = P.with_(frc=0 if P.frc else 1)
+            toks.append(uci_oracle(Q, m))          # the other notation
+        elif k < 0.8:
+            toks.append(rnd.choice(CASTLE_STRINGS))
+        elif k < 0.9:
+            a, b = rnd.randrange(64), rnd.randrange(64)
+            toks.append(vlib.sq_name(a) + vlib.sq_name(b) + rnd.choice(["", "", "q", "n", "k"]))
+        else:
+            toks.append(rnd.choice(["0000", "e2e", "xyz", "e2e4q", "E2E4", "a1a1", "e1h1", "e8a8", "O-O", "e7e8", "--"]))
+    return toks
+
+
+def run_C05(res):
+    g, pl, sp, co = sizes(res, (16, 60, 600, 200), (200, 120, 20000, 3000))
+    rnd = random.Random(res.seed)
+    ps0 = gen_positions(res, g, pl, sp, co)
+    ok = in_domain(ps0)
+    ps0 = [p for p, o in zip(ps0, ok) if o]
+    rnd.shuffle(ps0)
+    ps0 = ps0[: (1500 if res.tier == "quick" else 30000)]
+    res.coverage["rule"] = ("in-process: uci::moves on one token per (position, UCI_Chess960 flag): legal moves in both notations, the four castling strings in every "
+                            "situation, near-miss and garbage tokens; oracle = Spec legal moves + notation rule; process level: `position fen|startpos ... moves ...` "
+                            "scripts against the real binary (both builds) compared with the model transcript (print, history)")
+    ps = []
+    for p in ps0:
+        P = Pos(p)
+        ps.append(str(P.with_(frc=rnd.choice([0, 1]))))
+    legal = [parse_moves(s) for s in run_driver_par(["smoves " + p for p in ps])]
+    reqs, meta = [], []
+    for p, ml in zip(ps, legal):
+        P = Pos(p)
+        for t in random_tokens(P, ml, rnd, 4):
+            reqs.append(f"apply {p} {t}")
+            meta.append((p, ml, t))
+    impl = run_hx_par(reqs)
+    model = run_driver_par(reqs)
+    compare(res, "uci::moves (one token)", reqs, impl, model)
+    implc = run_hx_par(reqs, "checked")
+    want_moves = []
+    for (p, ml, t) in meta:
+        want_moves.append(spec_tokens(Pos(p), ml, t))
+    flat = [(i, m) for i, ((p, ml, t), ms) in enumerate(zip(meta, want_moves)) for m in ms]
+    mk = run_hx_par([f"make {meta[i][0]} {m[0]} {m[1]} {m[2]} 1" for i, m in flat])
+    exps = {}
+    for (i, m), r in zip(flat, mk):
+        exps.setdefault(i, []).append(r)
+    for i, ((p, ml, t), ms) in enumerate(zip(meta, want_moves)):
+        r = impl[i]
+        m = ms[0] if ms else None
+        castle_tok = t in CASTLE_STRINGS
+        res.case(reqs[i], m is not None or castle_tok, {"position": p, "token": t, "denotes": None if m is None else fmt_mv(m), "result": r[-30:]})
+        res.count("token_" + ("accepted" if m is not None else "rejected") + ("_castling_string" if castle_tok else ""))
+        if len(ms) > 1:
+            res.count("token_ambiguous_in_standard_notation")
+        if r in ("PANIC", "DIED") or implc[i] != r:
+            res.fail("uci::moves panicked / corrupted the position on a token", position=p, token=t, observed=(r[-40:], implc[i][-40:]))
+            continue
+        f = r.split()
+        if m is None:
+            if f[:22] != p.split() or f[22] != "u=1" or f[23] != "h=0":
+                res.fail("a token that denotes no legal move changed the position / history or was not reported as unknown", position=p, token=t, observed=r)
+        else:
+            if all(f[:22] != e.split()[:22] for e in exps[i]) or f[22] != "u=0" or f[23] != "h=1":
+                res.fail("a token that denotes a legal move was not applied as that move", position=p, token=t, move=fmt_mv(m), observed=r)
+    # process level
+    vlib.cargo_build_bins()
+    n_scripts = 40 if res.tier == "quick" else 600
+    gs = games(res, 6 if res.tier == "quick" else 60, 40, 40, 40)
+    starts = [g[0] for g in gs]
+    fens = run_hx(["fenout " + s for s in starts])
+    scripts = []
+    for k in range(n_scripts):
+        i = rnd.randrange(len(starts))
+        frc = rnd.choice([False, True])
+        cur = str(Pos(starts[i]).with_(frc=1 if frc else 0))
+        toks = []
+        for _ in range(rnd.randrange(0, 14)):
+            ml = parse_moves(run_hx(["moves " + cur])[0])
+            t = random_tokens(Pos(cur), ml, rnd, 1)[0]
+            toks.append(t)
+            r = run_hx([f"apply {cur} {t}"])[0]
+            if r in ("PANIC", "DIED"):
+                break
+            cur = " ".join(r.split()[:22])
+        head = ["setoption name UCI_Chess960 value " + ("true" if frc else "false"), "isready"]
+        pos_line = ("position startpos" if fens[i].startswith("rnbqkbnr/pppppppp/8/8/8/8/PPPPPPPP/RNBQKBNR w KQkq - 0 1") and rnd.random() < 0.7
+                    else "position fen " + fens[i]) + (" moves " + " ".join(toks) if toks else "")
+        scripts.append(head + [pos_line, "print", "history", "go split 1", "quit"])
+    process_compare(res, scripts, "position/moves script")
+
+
+def process_compare(res, scripts, what, builds=("release", "checked"), model=True):
+    mreq = []
+    for sc in scripts:
+        mreq.append("script w - " + "|".join(sc))
+    mw = run_driver_par(mreq) if model else [None] * len(scripts)
+    for sc, mo in zip(scripts, mw):
+        for b in builds:
+            rc, out, err, to, secs = run_engine(sc, b, timeout=30)
+            res.evaluations += 1
+            if to:
+                res.fail("engine hung (no exit within 30 s)", script=sc, build=b)
+                continue
+            if rc != 0 or "panicked" in err:
+                res.fail("engine crashed", script=sc, build=b, exit_status=rc, stderr=err[-300:])
+                continue
+            if model:
+                got = canon_transcript(out)
+                exp = mo.split("|") if mo not in ("PANIC", "DIED") else ["<model: PANIC>"]
+                while exp and exp[-1] == "":
+                    exp.pop()
+                if got != exp:
+                    k = next((i for i, (a, c) in enumerate(zip(got, exp)) if a != c), min(len(got), len(exp)))
+                    res.disagree(what + f" ({b} build)", " | ".join(sc)[:600], "line %d: %s" % (k, got[k] if k < len(got) else "<end>"),
+                                 "line %d: %s" % (k, exp[k] if k < len(exp) else "<end>"))
+
+
+def match_F3(f):
+    return f.get("token") in CASTLE_STRINGS and f.get("what", "").startswith(("a token that denotes no legal move", "uci::moves panicked"))
+
+
+# ------------------------------------------------------------------ C15
+def random_script(rnd, fens, movegen, timed_ok=True):
+    """a command script (after the initial `uci`) and the number of bestmove lines it must produce"""
+    lines = []
+    expect_best = 0
+    ready = 0
+    deterministic = True
+    # first loop
+    for _ in range(rnd.randrange(0, 3)):
+        lines.append(rnd.choice(["setoption name Hash value %d" % rnd.choice([1, 2, 4, 8]), "setoption name UCI_Chess960 value true",
+                                 "setoption name UCI_Chess960 value false", "setoption name Foo value 1", "setoption"]))
+    first = rnd.choice(["isready", "isready", "isready", "ucinewgame", "print", "", "go depth 1"])
+    n = rnd.randrange(2, 14)
+    body = [first]
+    for _ in range(n):
+        k = rnd.random()
+        if k < 0.08:
+            body.append("isready")
+        elif k < 0.14:
+            body.append("ucinewgame")
+        elif k < 0.2:
+            body.append(rnd.choice(["setoption name Hash value %d" % rnd.choice([1, 2, 3, 16, 0, 64]), "setoption name UCI_Chess960 value true",
+                                    "setoption name UCI_Chess960 value false", "setoption name Hash value abc", "setoption name Hash"]))
+        elif k < 0.42:
+            f = rnd.choice(fens)
+            toks = movegen(f, rnd)
+            body.append(("position startpos" if f is None else "position fen " + f) + (" moves " + " ".join(toks) if toks else ""))
+        elif k < 0.47:
+            body.append("moves " + " ".join(rnd.choice(["e2e4", "e7e5", "g1f3", "e1g1", "e8g8", "zzzz", "a7a8q"]) for _ in range(rnd.randrange(1, 4))))
+        elif k < 0.72:
+            g = rnd.random()
+            if g < 0.3:
+                body.append("go depth %d" % rnd.choice([0, 1, 1, 2, 2, 3]))
+            elif g < 0.45:
+                body.append("go nodes %d" % rnd.choice([0, 1, 10, 100, 1000]))
+            elif g < 0.6 and timed_ok:
+                body.append("go movetime %d" % rnd.choice([0, 1, 5, 20]))
+                deterministic = False
+            elif g < 0.8 and timed_ok:
+                s = "go wtime %d btime %d" % (rnd.choice([0, 1, 30, 100, 500]), rnd.choice([0, 1, 30, 100, 500]))
+                if rnd.random() < 0.4:
+                    s += " winc %d binc %d" % (rnd.choice([0, 10]), rnd.choice([0, 10]))
+                if rnd.random() < 0.5:
+                    s += " movestogo %d" % rnd.choice([0, 1, 5, 40])
+                body.append(s)
+                deterministic = False
+            elif g < 0.9:
+                body.append("go perft %d" % rnd.choice([0, 1, 2, 3]))
+            else:
+                body.append("go split %d" % rnd.choice([0, 1, 2]))
+        elif k < 0.8:
+            body.append("print")
+        elif k < 0.86:
+            body.append("history")
+        elif k < 0.92:
+            body.append("eval")
+        else:
+            body.append(rnd.choice(["", "foo", "stop", "ponderhit", "  ", "go", "go foo 1", "display"]))
+    if rnd.random() < 0.7:
+        body.append("quit")
+    lines += body
+    # count obligations: a quit in the first loop ends everything (not generated); count until the first quit
+    seen_first = False
+    for l in lines:
+        t = l.split()
+        if not t:
+            if not seen_first:
+                seen_first = True
+            continue
+        if not seen_first:
+            if t[0] == "setoption":
+                continue
+            seen_first = True
+        if t[0] == "isready":
+            ready += 1
+        if t[0] == "quit":
+            break
+        if t[0] == "go" and len(t) >= 3 and t[1] in ("depth", "nodes", "movetime", "wtime"):
+            expect_best += 1
+    return lines, expect_best, ready, deterministic
+
+
+def run_C15(res):
+    rnd = random.Random(res.seed)
+    vlib.cargo_build_bins()
+    gs = games(res, 8 if res.tier == "quick" else 80, 60, 60, 80)
+    pool = [p for g in gs for p in g]
+    ok = in_domain(pool)
+    pool = [p for p, o in zip(pool, ok) if o]
+    rnd.shuffle(pool)
+    pool = pool[:200]
+    fens = run_hx(["fenout " + p for p in pool]) + [None] * 20
+    legal_cache = {}
+
+    def movegen(f, rnd):
+        toks = []
+        for _ in range(rnd.randrange(0, 5)):
+            toks.append(rnd.choice(["e2e4", "e7e5", "g1f3", "b8c6", "e1g1", "e8g8", "e1c1", "e8c8", "a2a4", "h7h5", "d2d4", "zz", "a7a8q", "e1h1"]))
+        return toks
+    n = 60 if res.tier == "quick" else 1500
+    res.coverage["rule"] = ("random command scripts over the property's vocabulary (incl. the first-loop/second-loop boundary of listen, option changes, zero budgets, "
+                            "movestogo 0, split/perft 0, garbage tokens, EOF with and without quit) fed to the real binary, optimised and checked build: exit status 0, no "
+                            "panic text, one readyok per isready, one bestmove per well-formed search request, termination within 30 s; deterministic scripts also compared "
+                            "line by line with the Lean UCI model")
+    for i in range(n):
+        sc, nbest, nready, det = random_script(rnd, fens, movegen)
+        for b in ("release", "checked"):
+            rc, out, err, to, secs = run_engine(sc, b, timeout=30)
+            res.case(b + "|" + "|".join(sc), True, {"script": sc, "build": b, "exit": rc, "bestmoves": out.count("bestmove")} if i % 20 == 0 else None)
+            if to:
+                res.fail("engine hung (no exit within 30 s)", script=sc, build=b)
+                continue
+            if rc != 0 or "panicked" in err:
+                res.fail("engine crashed", script=sc, build=b, exit_status=rc, stderr=err[-300:])
+                continue
+            lines = out.split("\n")
+            if sum(1 for l in lines if l == "readyok") != nready:
+                res.fail("wrong number of readyok lines", script=sc, build=b, observed=sum(1 for l in lines if l == "readyok"), expected=nready)
+            nb = sum(1 for l in lines if l.startswith("bestmove"))
+            if nb != nbest:
+                res.fail("wrong number of bestmove lines", script=sc, build=b, observed=nb, expected=nbest)
+        if det:
+            res.count("deterministic_scripts_compared_with_model")
+            process_compare_one(res, sc)
+        else:
+            res.count("timed_scripts_shape_only")
+
+
+def process_compare_one(res, sc):
+    mo = run_driver(["script w - " + "|".join(sc)])[0]
+    for b in ("release", "checked"):
+        rc, out, err, to, secs = run_engine(sc, b, timeout=30)
+        if to or rc != 0:
+            continue
+        got = canon_transcript(out)
+        exp = mo.split("|") if mo not in ("PANIC", "DIED") else ["<model: PANIC>"]
+        while exp and exp[-1] == "":
+            exp.pop()
+        if got != exp:
+            k = next((i for i, (a, c) in enumerate(zip(got, exp)) if a != c), min(len(got), len(exp)))
+            res.disagree(f"UCI transcript ({b} build)", " | ".join(sc)[:600], "line %d: %s" % (k, got[k] if k < len(got) else "<end>"),
+                         "line %d: %s" % (k, exp[k] if k < len(exp) else "<end>"))
+
+
+def match_F7(f):
+    sc = f.get("script") or []
+    return f.get("what") in ("engine crashed", "engine hung (no exit within 30 s)") and any(re.search(r"movestogo 0\b|go split 0\b", l) for l in sc)
+
+
+def match_F3_script(f):
+    sc = f.get("script") or []
+    return f.get("what") in ("engine crashed",) and any(re.search(r"\b(e1g1|e1c1|e8g8|e8c8)\b", l) for l in sc)
+
+
+# ------------------------------------------------------------------ C16
+def options_after(lines):
+    hash_mb, frc = 16, False
+    for l in lines:
+        t = l.split()
+        if len(t) >= 5 and t[0] == "setoption" and t[1] == "name" and t[3] == "value":
+            if t[2] in ("Hash", "hash"):
+                if re.fullmatch(r"\+?\d+", t[4]):
+                    hash_mb = max(1, min(int(t[4]), 4096))
+            elif t[2] == "UCI_Chess960":
+                frc = t[4] == "true"
+        if t and t[0] == "quit":
+            break
+    return hash_mb, frc
+
+
+def after_last_readyok(out):
+    lines = canon_transcript(out)
+    idx = max((i for i, l in enumerate(lines) if l == "readyok"), default=-1)
+    return lines[idx + 1:]
+
+
+def run_C16(res):
+    rnd = random.Random(res.seed)
+    vlib.cargo_build_bins()
+    gs = games(res, 8 if res.tier == "quick" else 80, 60, 60, 80)
+    pool = [p for g in gs for p in g]
+    ok = in_domain(pool)
+    pool = [p for p, o in zip(pool, ok) if o]
+    rnd.shuffle(pool)
+    pool = pool[:200]
+    fens = run_hx(["fenout " + p for p in pool]) + [None] * 10
+
+    def movegen(f, rnd):
+        return [rnd.choice(["e2e4", "e7e5", "g1f3", "b8c6", "e1g1", "d2d4", "zz"]) for _ in range(rnd.randrange(0, 4))]
+    n = 40 if res.tier == "quick" else 800
+    res.coverage["rule"] = ("random command prefixes (positions, move lists, depth/node/time searches, perfts, option changes) followed by [ucinewgame,] position X and the queries "
+                            "print, history, eval, go split 1, go perft 2, go depth 2/3: output after the prefix compared with a fresh engine given the same option values")
+    for i in range(n):
+        pre, _, _, _ = random_script(rnd, fens, movegen)
+        pre = [l for l in pre if l.split()[:1] != ["quit"]]
+        if pre and "isready" not in pre:
+            pre.insert(0, "isready")
+        f = rnd.choice(fens)
+        posline = ("position startpos" if f is None else "position fen " + f) + rnd.choice(["", "", " moves e2e4", " moves zz"])
+        hash_mb, frc = options_after(pre)
+        for newgame in (True, False):
+            queries = ["print", "history", "eval", "go split 1", "go perft 2"] + (["go depth %d" % rnd.choice([1, 2, 3])] if newgame else [])
+            suffix = ["isready"] + (["ucinewgame"] if newgame else []) + [posline] + queries + ["quit"]
+            fresh = [f"setoption name Hash value {hash_mb}", "setoption name UCI_Chess960 value " + ("true" if frc else "false")] + suffix
+            for b in (("release", "checked") if i % 4 == 0 else ("release",)):
+                r1 = run_engine(pre + suffix, b, timeout=40)
+                r2 = run_engine(fresh, b, timeout=40)
+                res.case(b + "|" + "|".join(pre + suffix), True, {"prefix": pre, "suffix": suffix, "build": b} if i % 10 == 0 and newgame else None)
+                if r1[3] or r2[3] or r1[0] != 0 or r2[0] != 0:
+                    res.fail("engine crashed or hung while comparing against a fresh engine", prefix=pre, suffix=suffix, build=b, exit=(r1[0], r2[0]))
+                    continue
+                a, c = after_last_readyok(r1[1]), after_last_readyok(r2[1])
+                if a != c:
+                    k = next((j for j, (x, y) in enumerate(zip(a, c)) if x != y), min(len(a), len(c)))
+                    res.fail("output after %sposition depends on earlier commands" % ("ucinewgame + " if newgame else ""), prefix=pre, suffix=suffix, build=b,
+                             observed=a[k] if k < len(a) else "<end>", fresh_engine=c[k] if k < len(c) else "<end>")
+        # model correspondence of the whole run (deterministic prefixes only)
+        if all(not re.search(r"movetime|wtime", l) for l in pre):
+            process_compare_one(res, pre + ["isready", "ucinewgame", posline, "print", "history", "eval", "go depth 2", "quit"])
+
+
+# ------------------------------------------------------------------ C20
+def run_C20(res):
+    n = 200 if res.tier == "quick" else 3000
+    res.coverage["rule"] = ("random legal games from the standard start (legality by the Lean chess model) incl. degenerate families (zero-move games, no captures, no pawn "
+                            "moves, short games, every result), analysed by the REAL tools/style/style.py through the python-chess stand-in and by the Lean model: Stats fields, "
+                            "is_valid, error class and scores compared; property oracle: is_valid, scores finite in [0,1], no exception")
+    ok, out = vlib.lake_build(["styledriver"])
+    if not ok:
+        res.broken.append("lake build styledriver failed: " + out[-600:])
+        return
+    frag = os.path.join(vlib.VERIF, ".build", "c20_fragment.json")
+    os.makedirs(os.path.dirname(frag), exist_ok=True)
+    p = subprocess.run([sys.executable, os.path.join(vlib.VERIF, "tools", "style_corr.py"), "--seed", str(res.seed % 100000), "--games", str(n), "--out", frag],
+                       stdout=subprocess.PIPE, stderr=subprocess.STDOUT, text=True, timeout=3000)
+    for l in p.stdout.splitlines():
+        m = re.match(r"FAIL kind=(\S+) case=(\S+)", l)
+        if m:
+            try:
+                data = json.load(open(m.group(2)))
+            except Exception:
+                data = {}
+            if m.group(1) == "property":
+                res.fail("style tool violates the property", case=m.group(2), detail=json.dumps(data)[:600])
+            else:
+                res.disagree("style.py vs Lean model", m.group(2), json.dumps(data)[:300], "")
+    if p.returncode not in (0, 1):
+        res.broken.append("style_corr.py failed: " + p.stdout[-600:])
+    try:
+        fr = json.load(open(frag))
+    except Exception:
+        fr = {}
+    res.evaluations += int(fr.get("evaluations", fr.get("games", n)))
+    for k in range(int(fr.get("distinct_nontrivial", fr.get("games", n)))):
+        res.distinct.add(k)
+    res.samples = (fr.get("samples") or [{"games": n}])[:4]
+    for k, v in fr.items():
+        if isinstance(v, (int, float, str)) and k not in ("evaluations", "distinct_nontrivial"):
+            res.coverage["style_" + k] = v
+    res.assumptions.append("pystub/chess is a stand-in for python-chess (not installed here); IEEE rounding is probed, not modelled")
+
+
+def match_F9(f):
+    return f.get("what") == "style tool violates the property" and "ZeroDivision" in f.get("detail", "")
+
+
+PROPS = {
+    "C05": {"run": run_C05, "bins": True, "matchers": {"F3": match_F3}},
+    "C15": {"run": run_C15, "bins": True, "matchers": {"F7": match_F7, "F3": match_F3_script}},
+    "C16": {"run": run_C16, "bins": True},
+    "C20": {"run": run_C20, "matchers": {"F9": match_F9}},
+}
